@@ -14,6 +14,7 @@ import (
 	"time"
 
 	"verifsim/sim"
+	"verifsim/simredis"
 	"verifsim/simrt"
 )
 
@@ -87,6 +88,13 @@ func execPlan(t *testing.T, ck *Check, plan *sim.Plan) (*sim.Outcome, []sim.Viol
 		var setup *sim.Setup
 		if ck.Setup != nil {
 			setup = ck.Setup(plan)
+		}
+		if plan.Broker.Persistence == "redis" {
+			// swarm: this run's broker keeps sessions, subscriptions, queues and unacknowledged ids in (simulated) redis
+			st := simredis.NewServer(plan.Seed)
+			fmt.Sscan(plan.Params["redis_lat_us"], &st.ReplyLatMaxUs)
+			simredis.Install(st)
+			defer simredis.Install(nil)
 		}
 		out = sim.Run(t, plan, setup)
 	}
